@@ -145,6 +145,26 @@ PROPS = {
         text="The stream is assembled by the harness, so which cues, times, lines, runs, colours and national characters must come out is known by construction; distractors of every kind named in the property are multiplexed in and must not contribute.",
         note="Trusted: the harness encoder and its national-option table; go-astits as demultiplexer (third party, outside the property).",
         design="5/C06"),
+    "C13": P(
+        "TestC13", "exploration",
+        "case = reference graph (0..6 styles with parent chains up to depth 4 and shared parents, 0..3 regions with optional style, 0..4 cues with optional style / region, 1..2 runs with optional style, unused and shared definitions), built from the public types or obtained by parsing a TTML document rendered from the graph; 1 case in 5 checks RemoveStyling instead of Optimize. "
+        "Non-trivial = >=1 cue and (a definition reachable only through inheritance or a region's style, or some definitions removed and some kept); distinct = hash of the case.",
+        ["reachability closure computed by the harness from the model alone (cue -> style, run -> style, cue -> region -> style, style -> parent*)",
+         "the write/re-read comparison uses the un-optimized list written the same way as reference (writers are pure: C19)"],
+        shards=(4, 16), technique="property-based testing against a reachability computation (model-based), identity / deep-snapshot oracle for the cues, idempotence, and a differential write->read of the optimized vs un-optimized list through all five writers",
+        text="Kept definitions must equal the reachability closure exactly (nothing reachable dropped, nothing unreachable kept), by pointer identity; cues compared with snapshots; second call is a no-op; the optimized list is written to all five formats and re-read.",
+        note="Trusted: the 20-line closure in the harness, rapid.",
+        design="5/C13"),
+    "C16": P(
+        "TestC16", "exploration",
+        "case = (format in {srt, vtt, ttml, ssa, stl at 25 fps, stl at 30 fps}, batch of instants in ns; two instants per written cue). Enumerated: hour values {0,1,9,10,23,24,99} x unit-boundary pool, every second of the day +-1 ns, every frame boundary at 25/30 fps -1/+0/+1/+2 ns (one minute in quick, the day in thorough), the millisecond domain [0,24h) for the four text formats (every 997th ms in quick, every ms in thorough), k*10 ms +-1 ns (strided in quick); random batches at ns resolution up to 100 h (24 h for STL). "
+        "Every batch is non-trivial; distinct = hash of (format, first instant, last instant, length); the label 'instants' counts batches, notes give instant counts.",
+        ["public API only: timing fields are cut out of the writer's output with the harness's own field grammar (two-digit minutes/seconds < 60, fraction of exactly 3 resp. 2 digits, frame < rate) and the same bytes are read back",
+         "expected rendering = floor of the instant to the format's unit in integer arithmetic; STL read-back within 1 ns"],
+        shards=(6, 16), timeout=(900, 7200), technique="exhaustive / strided enumeration of the instant domain plus rapid random batches, oracle = integer floor arithmetic + grammar + read-back + second-write byte identity + monotonicity",
+        text="Rendering must equal the integer floor, match the grammar, be read back to that instant, be reproduced byte for byte by a second write and be monotone; the thorough tier enumerates the whole millisecond domain of a day for the four text formats and every frame boundary for STL.",
+        note="Trusted: the harness's regular expressions for the timing fields and its integer arithmetic.",
+        design="5/C16", exhaustive_note=True),
 }
 
 # Properties deliberately not claimed (reason each); anything else missing from PROPS is work in progress.
